@@ -117,6 +117,44 @@ class C13Executor(SymListMixin, ET.ETreeMixin, Executor):
             return VStr(PYSTR_TD(v.t))
         return super().to_str(st, v, formatted)
 
+    # ---- concrete folding: a method of a *concrete* str with concrete arguments is evaluated by CPython itself
+    def str_method(self, st, s_, name, args, kwargs, node):
+        c = s_.const()
+        if c is not None and not kwargs and name in ("startswith", "endswith", "lower", "upper", "strip", "lstrip", "rstrip", "replace", "find", "split",
+                                                       "isdigit", "isalpha", "isspace", "count", "index", "rfind", "partition", "rpartition", "splitlines", "rjust", "ljust", "zfill"):
+            pargs = [self.py_const(a) for a in args]
+            if not any(type(a).__name__ == "_NCType" for a in pargs):
+                try:
+                    r = getattr(c, name)(*pargs)
+                except Exception as e:  # noqa  (the real exception of the real method)
+                    cls = type(e).__name__
+                    self.raise_in(st, self.mk_exc(cls if self.uni.known(cls) else "Exception"))
+                    return []
+                if isinstance(r, list):
+                    return [(st, self.new_list(st, [ops.lift(x) for x in r]))]
+                return [(st, ops.lift(r))]
+        return super().str_method(st, s_, name, args, kwargs, node)
+
+    def get_index(self, st, base, idx, node):
+        if isinstance(base, VStr) and isinstance(idx, VInt):
+            c, k = base.const(), idx.const()
+            if c is not None and k is not None and -len(c) <= k < len(c):
+                return [(st, VStr(c[k]))]
+        return super().get_index(st, base, idx, node)
+
+    def get_attr(self, st, base, attr, node):
+        # class-level literal attributes of a repo class (e.g. _RtfParser.SPECIAL_CHARS) read through an instance
+        if isinstance(base, VRef) and st.obj(base.ref).kind == "obj" and attr not in st.obj(base.ref).data:
+            cls = self.module.classes.get(st.obj(base.ref).cls or "")
+            if cls is not None:
+                for b in cls.body:
+                    if isinstance(b, ast.Assign) and len(b.targets) == 1 and isinstance(b.targets[0], ast.Name) and b.targets[0].id == attr:
+                        try:
+                            return [(st, self.lift_const(ast.literal_eval(b.value), attr))]
+                        except (ValueError, SyntaxError):
+                            break
+        return super().get_attr(st, base, attr, node)
+
     def b_super(self, st, args, kwargs, node):
         return [(st, VExt("SuperProxy"))]
 
@@ -576,12 +614,192 @@ def pptx_contracts(reg):
         note="symbolic tree shape: every number of rows, every (ragged) number of cells per row")]
 
 
+# =============================================================== RTF row matching ==
+RTF = "sharepoint2text/parsing/extractors/ms_legacy/rtf_extractor.py"
+REGEX, MATCH = ext_sort("Regex"), ext_sort("Match")
+RX_N = z3.Function("re_finditer_n", REGEX, S, I)
+RX_AT = z3.Function("re_finditer_at", REGEX, S, I, MATCH)
+M_START = z3.Function("match_start", MATCH, I)
+M_END = z3.Function("match_end", MATCH, I)
+
+
+def finditer_facts(rx, text):
+    """re.Pattern.finditer (ASSUMED): the non-overlapping, non-empty matches of the pattern in ascending order of position."""
+    a, b = z3.Int(fresh_name("a")), z3.Int(fresh_name("b"))
+    n = RX_N(rx, text)
+    st_, en = (lambda k: M_START(RX_AT(rx, text, k))), (lambda k: M_END(RX_AT(rx, text, k)))
+    return z3.And(n >= 0,
+                  z3.ForAll([a], z3.Implies(z3.And(a >= 0, a < n), z3.And(st_(a) >= 0, st_(a) < en(a), en(a) <= z3.Length(text)))),
+                  z3.ForAll([a, b], z3.Implies(z3.And(a >= 0, a < b, b < n), en(a) <= st_(b))))
+
+
+def install_regex_models(reg, names):
+    for nm in names:
+        reg.module_consts[(RTF, nm)] = VExt("Regex", z3.Const(f"regex!{nm}", REGEX))
+
+    def m_finditer(ex, st, o, a, k, n):
+        if len(a) != 1 or not isinstance(a[0], VStr):
+            return ex.havoc_call(st, "finditer", [], n)
+        st.assume(finditer_facts(o.t, a[0].t))
+        return [(st, VSeq(RX_N(o.t, a[0].t), lambda i, rx=o.t, t=a[0].t: VExt("Match", RX_AT(rx, t, i)), "Match"))]
+    reg.method_models[("Regex", "finditer")] = m_finditer
+    reg.method_models[("Match", "start")] = lambda ex, st, o, a, k, n: [(st, VInt(M_START(o.t)))] if not a else ex.havoc_call(st, "start(group)", [], n)
+    reg.method_models[("Match", "end")] = lambda ex, st, o, a, k, n: [(st, VInt(M_END(o.t)))] if not a else ex.havoc_call(st, "end(group)", [], n)
+
+    def m_bisect(left):
+        def model(ex, st, args, kwargs, node):
+            """bisect.bisect_left / bisect_right on an ascending list of ints (ASSUMED, stdlib documentation): the partition point"""
+            s = ex.as_seq(st, args[0]) if len(args) == 2 and not kwargs else None
+            if s is None or not isinstance(args[1], VInt):
+                return ex.havoc_call(st, "bisect", [], node)
+            b, j = z3.Int(fresh_name("bisect")), z3.Int(fresh_name("j"))
+            x = ops.int_term(args[1])
+            el = lambda k: ops.int_term(s.elem(k))
+            st.assume(z3.And(b >= 0, b <= s.length,
+                             z3.ForAll([j], z3.Implies(z3.And(j >= 0, j < b), el(j) < x if left else el(j) <= x)),
+                             z3.ForAll([j], z3.Implies(z3.And(j >= b, j < s.length), el(j) >= x if left else el(j) > x))))
+            return [(st, VInt(b))]
+        return model
+    reg.ext_models["bisect.bisect_left"] = m_bisect(True)
+    reg.ext_models["bisect.bisect_right"] = m_bisect(False)
+    reg.ext_models["bisect.bisect"] = m_bisect(False)
+
+
+def small_scope_refuter(pc, goal, timeout_ms):
+    """DESIGN 2.5.3a: the same VC with every regex match count bounded by 2 (and, failing that, 3): a model of the bounded
+    VC is a model of the VC.  Only consulted for VCs z3 left unknown; the native replayer still has to confirm."""
+    seen, stack, counts = set(), list(pc) + [goal], {}
+    while stack:
+        x = stack.pop()
+        if x.get_id() in seen:
+            continue
+        seen.add(x.get_id())
+        if z3.is_app(x):
+            if x.decl().name() == "re_finditer_n":
+                counts[x.get_id()] = x
+            stack.extend(x.children())
+        elif z3.is_quantifier(x):
+            stack.append(x.body())
+    counts = [c for c in counts.values() if not any(z3.is_var(a) for a in c.children())]
+    if not counts:
+        return None
+    for bound in (2, 3):
+        sv = z3.Solver()
+        sv.set("timeout", min(timeout_ms, 4000))
+        sv.add(*pc)
+        sv.add(z3.Not(goal))
+        sv.add(*[c <= bound for c in counts])
+        if sv.check() == z3.sat:
+            m = sv.model()
+            return f"counter-model with at most {bound} regex matches per pattern: " + ", ".join(f"{c} = {m.eval(c, model_completion=True)}" for c in counts)
+    return None
+
+
+def rtf_loops(repo=None):
+    """(outer loop ordinal, inner loop ordinal | None, names) of the row-matching loops of _RtfParser._extract_tables, found
+    structurally in the real AST: the first loop over a list of \\trowd match positions; the loop nested directly in it."""
+    m = loader.module(RTF, repo)
+    fnode = m.functions.get("_RtfParser._extract_tables")
+    if fnode is None:
+        return None
+    loops = [n for n in ast.walk(fnode) if isinstance(n, (ast.For, ast.While))]
+    loops.sort(key=lambda n: (n.lineno, n.col_offset))
+    # the position lists: NAME = [m.start()/m.end() for m in _RE_X.finditer(text)]
+    src = {}
+    for n in ast.walk(fnode):
+        if isinstance(n, ast.Assign) and len(n.targets) == 1 and isinstance(n.targets[0], ast.Name) and isinstance(n.value, ast.ListComp):
+            g = n.value.generators[0]
+            if isinstance(g.iter, ast.Call) and isinstance(g.iter.func, ast.Attribute) and g.iter.func.attr == "finditer" and isinstance(g.iter.func.value, ast.Name) \
+                    and isinstance(n.value.elt, ast.Call) and isinstance(n.value.elt.func, ast.Attribute):
+                src[n.targets[0].id] = (g.iter.func.value.id, n.value.elt.func.attr)
+    trowd = [k for k, v in src.items() if v == ("_RE_TROWD", "start")]
+    rows = [k for k, v in src.items() if v == ("_RE_ROW", "end")]
+    if len(trowd) != 1 or len(rows) != 1:
+        return None
+    outer = [l for l in loops if isinstance(l, ast.For) and isinstance(l.iter, ast.Name) and l.iter.id == trowd[0] and isinstance(l.target, ast.Name)]
+    if not outer:
+        return None
+    outer = outer[0]
+    built = None
+    for n in ast.walk(outer):
+        if isinstance(n, ast.Call) and isinstance(n.func, ast.Attribute) and n.func.attr == "append" and isinstance(n.func.value, ast.Name):
+            built = n.func.value.id
+    inner = [l for l in outer.body if isinstance(l, ast.For) and isinstance(l.iter, ast.Name) and l.iter.id == rows[0] and isinstance(l.target, ast.Name)]
+    return {"outer": loops.index(outer), "inner": loops.index(inner[0]) if inner else None, "trowd": trowd[0], "rows": rows[0], "built": built,
+            "t": outer.target.id, "text": fnode.args.args[1].arg}
+
+
+def rtf_contracts(reg):
+    from pyvc import solve as _solve
+    if small_scope_refuter not in _solve.EXTRA_REFUTERS:
+        _solve.EXTRA_REFUTERS.append(small_scope_refuter)
+    return _rtf_contracts(reg)
+
+
+def _rtf_contracts(reg):
+    """_RtfParser._extract_tables, first half: every \\trowd (row start) is paired with the FIRST \\row terminator that ends
+    strictly after it -- also when that terminator is immediately followed by the next \\trowd -- and row starts without a
+    later terminator are dropped; pairs in source order; the row's source text is text[start:end].  Symbolic text, any
+    number of rows.  (The grouping of rows into tables and the cell texts are checked BOUNDED: C13_bounded.w_rtf.)"""
+    install_regex_models(reg, ("_RE_PAGE_BREAK", "_RE_TROWD", "_RE_ROW"))
+    L = rtf_loops()
+    if L is None or not L["built"]:
+        return [FnContract(target=f"{RTF}::_RtfParser._extract_tables", params=[("self", p_unk()), ("text", p_str())],
+                           ensures=[("row-matching-loop-recognised", lambda c: z3.BoolVal(False))], raises=[Raises("Exception", sub=True)],
+                           note="the row-matching loop over the \\trowd positions was not found in the source")]
+    rxT, rxR = z3.Const("regex!_RE_TROWD", REGEX), z3.Const("regex!_RE_ROW", REGEX)
+    TXT = z3.String("text")
+    NT, NR = RX_N(rxT, TXT), RX_N(rxR, TXT)
+    T = lambda k: M_START(RX_AT(rxT, TXT, k))
+    R = lambda k: M_END(RX_AT(rxR, TXT, k))
+    IDX = z3.Function("first_row_end_after", I, I)
+    K = z3.Int("paired_row_starts")
+
+    def spec_defs():
+        t, j, k = z3.Int("t!d"), z3.Int("j!d"), z3.Int("k!d")
+        return z3.And(
+            # IDX(t): index of the first \row end > t (NR when there is none)
+            z3.ForAll([t], z3.And(IDX(t) >= 0, IDX(t) <= NR, z3.Implies(IDX(t) < NR, R(IDX(t)) > t))),
+            z3.ForAll([t, j], z3.Implies(z3.And(j >= 0, j < IDX(t)), R(j) <= t)),
+            # K: the row starts that have a later terminator (a prefix, because positions ascend)
+            K >= 0, K <= NT, z3.ForAll([k], z3.Implies(z3.And(k >= 0, k < NT), (k < K) == (IDX(T(k)) < NR))))
+
+    def spec_rows():
+        return VSeq(K, lambda k: VTuple([VInt(T(k)), VInt(R(IDX(T(k)))),
+                                         VStr(z3.SubString(TXT, T(k), R(IDX(T(k))) - T(k)))]), "row")
+
+    def lst(lc, st=None):
+        st = st or lc.st
+        return lc.ex.as_seq(st, st.lookup(L["built"]))
+
+    def inv_outer(lc):
+        i = lc.i
+        return seq_eq(lst(lc), take(spec_rows(), z3.If(i < K, i, K)))
+
+    def inv_inner(lc):
+        j = z3.Int(fresh_name("j"))
+        t = ops.int_term(lc[L["t"]])
+        return z3.And(seq_eq(lst(lc), lst(lc, lc.entry)),
+                      z3.ForAll([j], z3.Implies(z3.And(j >= 0, j < lc.i), R(j) <= t)))
+
+    shape = ("list", ("tuple", ("int", "int", "str")))
+    loops = {L["outer"]: LoopSpec(inv=inv_outer, havoc=((L["built"], shape),), label="row-starts")}
+    if L["inner"] is not None:
+        loops[L["inner"]] = LoopSpec(inv=inv_inner, havoc=((L["built"], shape),), label="first-terminator-after")
+    return [FnContract(
+        target=f"{RTF}::_RtfParser._extract_tables", params=[("self", p_unk()), ("text", p_str())],
+        hyps=lambda c: spec_defs(),
+        raises=[Raises("Exception", sub=True)], loops=loops, modifies=("self",),
+        note="row start/end pairing for symbolic text; regex matches as assumed ascending non-overlapping positions")]
+
+
 def contracts(reg):
     ET.install(reg)
     out = []
     out += dim_contracts(reg)
     out += value_contracts(reg)
     out += pptx_contracts(reg)
+    out += rtf_contracts(reg)
     return out
 
 
@@ -619,9 +837,158 @@ def model_invariants(repo, tier):
     return {"obligations": obls}
 
 
+# ============================================================ call sites (dataflow) ==
+def _flow_site(mod, producer, sink_kw):
+    """Does the value produced by the call `producer(...)` reach the keyword argument `sink_kw=` of a constructor call (or an
+    `<obj>.<sink_kw>.append(...)`) unfiltered?  Allowed on the way: binding to a name (first element of a tuple target),
+    `if v:` / `if v is not None:` guards on the value itself, `L.append(v)` into a list that was created empty and is otherwise
+    only read or element-attribute-assigned.  -> (ok, detail, function).  A sound under-approximation of "flows unfiltered":
+    anything else is reported as not recognised (UNDECIDED, never a violation by itself)."""
+    found = []
+    for q, fnode in mod.functions.items():
+        own = [n for n in ast.walk(fnode) if isinstance(n, ast.Call) and (getattr(n.func, "id", None) == producer or getattr(n.func, "attr", None) == producer)]
+        nested = {id(n) for q2, f2 in mod.functions.items() if q2.startswith(q + ".") for n in ast.walk(f2)}
+        own = [n for n in own if id(n) not in nested]
+        if own:
+            found.append((q, fnode, own))
+    if len(found) != 1 or len(found[0][2]) != 1:
+        return False, f"expected exactly one call of {producer}, found {[(q, len(c)) for q, _f, c in found]}", None
+    q, fnode, (call,) = found[0]
+    parent = {}
+    for n in ast.walk(fnode):
+        for c in ast.iter_child_nodes(n):
+            parent[id(c)] = n
+
+    def stmt_of(n):
+        while not isinstance(n, ast.stmt):
+            n = parent[id(n)]
+        return n
+
+    def ancestors(n):
+        out = []
+        while id(n) in parent:
+            n = parent[id(n)]
+            out.append(n)
+        return out
+    st0 = stmt_of(call)
+    if not (isinstance(st0, ast.Assign) and st0.value is call and len(st0.targets) == 1):
+        return False, f"{producer}(...) is not bound by a plain assignment (line {call.lineno})", q
+    tgt = st0.targets[0]
+    if isinstance(tgt, ast.Tuple) and tgt.elts and isinstance(tgt.elts[0], ast.Name):
+        v = tgt.elts[0].id
+    elif isinstance(tgt, ast.Name):
+        v = tgt.id
+    else:
+        return False, f"unrecognised assignment target at line {st0.lineno}", q
+
+    def guard_ok(test, name):
+        return (isinstance(test, ast.Name) and test.id == name) or \
+               (isinstance(test, ast.Compare) and isinstance(test.left, ast.Name) and test.left.id == name and len(test.ops) == 1
+                and isinstance(test.ops[0], ast.IsNot) and isinstance(test.comparators[0], ast.Constant) and test.comparators[0].value is None)
+
+    def extra_guards(node, name):
+        base = {id(a) for a in ancestors(st0)}
+        bad = []
+        prev = node
+        for a in ancestors(node):
+            if id(a) in base:
+                break
+            if isinstance(a, ast.If) and not (guard_ok(a.test, name) and prev in a.body):
+                bad.append(a.lineno)
+            elif isinstance(a, (ast.While, ast.For)) or (isinstance(a, ast.Try) and prev not in a.body):
+                bad.append(a.lineno)
+            prev = a
+        return bad
+
+    def sink_uses(name):
+        return [k for n in ast.walk(fnode) if isinstance(n, ast.Call) for k in n.keywords if k.arg == sink_kw and isinstance(k.value, ast.Name) and k.value.id == name]
+
+    def mutated(name, allowed_append):
+        probs = []
+        for n in ast.walk(fnode):
+            if isinstance(n, (ast.Assign, ast.AnnAssign, ast.AugAssign)):
+                tg = n.targets if isinstance(n, ast.Assign) else [n.target]
+                for t in tg:
+                    if isinstance(t, ast.Name) and t.id == name and n is not st0:
+                        val = n.value
+                        if not (isinstance(val, ast.List) and not val.elts):
+                            probs.append(f"line {n.lineno}: {name} re-bound")
+                    if isinstance(t, ast.Subscript) and isinstance(t.value, ast.Name) and t.value.id == name:
+                        probs.append(f"line {n.lineno}: item of {name} replaced")
+            elif isinstance(n, ast.Delete):
+                for t in n.targets:
+                    if name in {x.id for x in ast.walk(t) if isinstance(x, ast.Name)}:
+                        probs.append(f"line {n.lineno}: del on {name}")
+            elif isinstance(n, ast.Call) and isinstance(n.func, ast.Attribute) and isinstance(n.func.value, ast.Name) and n.func.value.id == name \
+                    and n.func.attr in ("pop", "remove", "clear", "insert", "sort", "reverse", "extend", "append", "__delitem__") and n is not allowed_append:
+                probs.append(f"line {n.lineno}: {name}.{n.func.attr}()")
+        return probs
+    # direct: sink_kw=v
+    if sink_uses(v):
+        bad = [b for k in sink_uses(v) for b in extra_guards(k.value, v)] + mutated(v, None)
+        return (not bad), ("; ".join(map(str, bad)) or f"{producer} -> {v} -> {sink_kw}="), q
+    # through a list: L.append(v) / obj.<sink_kw>.append(v)
+    apps = [n for n in ast.walk(fnode) if isinstance(n, ast.Call) and isinstance(n.func, ast.Attribute) and n.func.attr == "append" and len(n.args) == 1
+            and isinstance(n.args[0], ast.Name) and n.args[0].id == v]
+    if len(apps) != 1:
+        return False, f"value {v} of {producer} is neither passed as {sink_kw}= nor appended exactly once", q
+    app = apps[0]
+    bad = extra_guards(app, v) + [f"line {n.lineno}: {v} re-bound" for n in ast.walk(fnode) if isinstance(n, ast.Assign) and n is not st0
+                                  and any(isinstance(t, ast.Name) and t.id == v for t in n.targets)]
+    recv = app.func.value
+    if isinstance(recv, ast.Attribute) and recv.attr == sink_kw:
+        return (not bad), ("; ".join(map(str, bad)) or f"{producer} -> {v} -> .{sink_kw}.append"), q
+    if isinstance(recv, ast.Name):
+        L = recv.id
+        if not sink_uses(L):
+            return False, f"list {L} does not reach {sink_kw}=", q
+        bad += mutated(L, app)
+        return (not bad), ("; ".join(map(str, bad)) or f"{producer} -> {v} -> {L}.append -> {sink_kw}="), q
+    return False, "unrecognised receiver of append", q
+
+
+def call_sites(repo, tier):
+    """Every walker / sheet builder verified above hands its result to the content object unfiltered (AST dataflow).  A site
+    that is not recognised is UNDECIDED; the native replayer then runs the public reader end to end."""
+    from pyvc.flow import ground_obligation
+    from contracts import C13_bounded as Bm
+    sites = [(Bm.DOCX, "_extract_tables_from_context", "tables"), (Bm.ODT, "_extract_tables", "tables"), (Bm.ODP, "_extract_table", "tables"),
+             (Bm.PPTX, "_extract_table_from_graphic_frame", "tables"), (Bm.EPUB, "get_tables", "tables"),
+             (Bm.XLSX, "_read_content_from_workbook", "sheets"), (Bm.XLS, "_read_content", "sheets"), (Bm.ODS, "_extract_sheet", "sheets")]
+    obls, fns = [], []
+    for rel, producer, kw in sites:
+        m = loader.module(rel, repo)
+        short = rel.split("/")[-1]
+        if short == "xlsx_extractor.py":
+            # two readers call it (_read_content and read_xlsx): each is checked
+            res = []
+            for q, fnode in m.functions.items():
+                if any(isinstance(n, ast.Call) and getattr(n.func, "id", None) == producer for n in ast.walk(fnode)) and "." not in q:
+                    sub = type("M", (), {"functions": {q: fnode}})()
+                    res.append(_flow_site(sub, producer, kw if q.startswith("read_") else "sheets") if q.startswith("read_") else (True, "helper", q))
+            ok = bool(res) and all(r[0] for r in res)
+            detail, q = "; ".join(r[1] for r in res), "read_xlsx"
+        else:
+            ok, detail, q = _flow_site(m, producer, kw)
+        obls.append(ground_obligation(f"C13/{short}::{q or producer}/call-site#{producer}-result-reaches-{kw}-unfiltered", ok, detail, rel, definite=False))
+        if q and q in m.functions:
+            fns.append(dict(m.fn_info(q), obligations=1))
+    # html / rtf: the extractor object's own list is passed on
+    for rel, q, expr in ((Bm.HTML, "read_html", "extractor.tables"), (Bm.RTF, "_RtfParser.parse", "self.tables")):
+        m = loader.module(rel, repo)
+        f = m.functions.get(q)
+        vals = [ast.unparse(k.value) for n in ast.walk(f) if isinstance(n, ast.Call) for k in n.keywords if k.arg == "tables"] if f is not None else []
+        calls = [n for n in ast.walk(f) if isinstance(n, ast.Call) and getattr(n.func, "attr", None) in ("extract", "_extract_tables")] if f is not None else []
+        obls.append(ground_obligation(f"C13/{rel.split('/')[-1]}::{q}/call-site#extractor-tables-reach-the-content-object", bool(vals) and all(v == expr for v in vals) and len(calls) >= 1,
+                                      f"tables= {vals}; extraction calls: {len(calls)}", rel, definite=False))
+        if f is not None:
+            fns.append(dict(m.fn_info(q), obligations=1))
+    return {"obligations": obls, "functions": fns}
+
+
 SPLIT = {"w_xlsx": 5, "w_epub": 2, "w_html": 2, "w_xls": 2}     # long walkers are split over the process pool (same obligation ids, merged)
-EXTRA = [_walker_job(w, k, SPLIT.get(w, 1)) for w in ("w_xlsx", "w_epub", "w_html", "w_xls", "w_ods", "w_docx", "w_odt", "w_odp", "w_pptx", "w_iter")
-         for k in range(SPLIT.get(w, 1))] + [model_invariants]
+EXTRA = [_walker_job(w, k, SPLIT.get(w, 1)) for w in ("w_xlsx", "w_epub", "w_html", "w_xls", "w_ods", "w_docx", "w_odt", "w_odp", "w_pptx", "w_iter", "w_rtf")
+         for k in range(SPLIT.get(w, 1))] + [model_invariants, call_sites]
 
 
 def known_findings(kf, violations, repo, tier):
@@ -679,6 +1046,10 @@ ASSUMED_MODELS = ["xml.etree.ElementTree.Element (contracts/etree_model.py): tag
                   "html.parser.HTMLParser.__init__ does not touch subclass fields; events of a well-formed document are start/data/end in document order",
                   "openpyxl Worksheet.iter_rows(values_only=True): the rows of cell values; xlrd Book.sheets()/Sheet.nrows/ncols/cell(r,c)/Cell.ctype/value, XL_CELL_* = 0..6, xldate_as_tuple",
                   "datetime/date/time.isoformat() is the ISO 8601 text; str(timedelta) is the duration's text",
+                  "html.parser.HTMLParser.feed: handler calls in document order; a self-closed element goes to handle_startendtag, whose inherited default is "
+                  "handle_starttag + handle_endtag (contracts/C13_bounded.py::feed_events)",
+                  "re.Pattern.finditer: non-overlapping non-empty matches in ascending order (symbolic text); on CONCRETE strings re / bisect / str methods are "
+                  "evaluated by the real library; bisect_left/right on an ascending list = partition point",
                   "text renderers _format_sheet_as_text / _format_table_as_text, ods _extract_annotations / _extract_images (not part of the grid)"]
 ASSUMPTIONS = ["PY-COMP: a comprehension / generator expression with a total effect-free element over a sequence is the element-wise image",
                "PY-MAX: max(it, default=d) is d for an empty iterable, else an upper bound that is attained",
@@ -688,13 +1059,16 @@ ASSUMPTIONS = ["PY-COMP: a comprehension / generator expression with a total eff
                "sheet extent = used range (trailing empty rows / columns are not part of the source table)",
                "cell text excludes the content of a table nested in the cell (that table is a table of its own: DESIGN 3 C13)",
                "HTML / EPUB cell rule: block children separated by white space, inline pieces run together, white space normalised",
-               "NOT decided: RTF tables (regex pipeline), merged / covered cells, ODS repeat counts > 100 (C12), row-group wrappers other than header rows, "
+               "NOT decided: RTF ragged rows (padded by design) and nested RTF tables, merged / covered cells, ODS repeat counts > 100 (C12), row-group wrappers other than header rows, "
                "docx tables inside content controls or text boxes, PDF tables (heuristic by design)"]
 BOUNDED = ["walkers docx _extract_tables_from_context, odt _extract_tables, odp _extract_table, pptx _extract_table_from_graphic_frame, html _process_node(+_extract_table,_find_nodes), "
            "epub table state machine: every document of the grammar in contracts/C13_bounded.py (1..2 tables, <= 2 x 2 ragged, cells with 0..2 paragraphs, one nested table of depth 1, "
            "header-rows wrapper), paragraph texts symbolic",
            "sheet builders xlsx _read_content_from_workbook(+_read_sheet_data,_is_table_name_row), xls _read_content + XlsSheet.get_table, ods _extract_sheet: sheets of 1..3 rows x 1..2 columns "
            "over the cell kinds empty/text/int/float/bool/date, duplicate and empty first-row names; values symbolic (xls/xlsx first-row names and ods typed literals concrete)",
-           "iterate_tables of every content class: 0..3 stored tables on 0..3 units"]
+           "iterate_tables of every content class: 0..3 stored tables on 0..3 units",
+           "rtf _RtfParser._extract_tables (+ _extract_table_cells, _save_table, _strip_rtf_simple, _remove_ignorable_groups): concrete RTF sources -- rectangular tables "
+           "up to 3 x 2, empty / two-paragraph cells, two tables separated by running text, rows newline-separated or back to back (quick: 2 layouts, thorough: 4)",
+           "html / epub documents are fed as parser events through the real handlers (_HtmlTreeBuilder, _XhtmlTextExtractor), including empty cells in self-closed form"]
 
 REPLAY_UNKNOWN = True    # undecided / out-of-subset items are searched natively (replay) before being reported UNDECIDED
